@@ -271,6 +271,16 @@ Definition run_case (c : value) : value :=
                     (bkl_cli o (map str_of (list_of (lookup_or_null "fmts" (map_of t)))) (dec_fs fsv) opts)
         | _ => bad_case
         end
+      else if String.eqb opn "setroots" then
+        (* [fs; first root; [roots...]; path]: nested SetRoot calls, then opening path: "setroot-err" | ok content | err *)
+        match args with
+        | [fsv; r0; VList rs; p] =>
+            match set_roots (dec_cpath r0) (map dec_cpath rs) with
+            | None => VList [VStr "setroot-err"]
+            | Some final => enc_res (fun x => x) (root_open 64 (dec_tfs fsv) final (dec_cpath p))
+            end
+        | _ => bad_case
+        end
       else if String.eqb opn "wrappedname" then
         (* [argv0 base name]: the program cmd/bklb runs, or null when the name does not end in b *)
         match args with [VStr n] => match wrapped_name n with Some w => VList [VStr "run"; VStr w] | None => VNull end | _ => bad_case end
